@@ -347,6 +347,23 @@ func (e *Engine) verifyFunc(fc *FuncContract) (res *FuncResult) {
 		}
 		e.obligs = keep
 	}
+	if fc.safetyOnly {
+		var keep []*Oblig
+		for _, o := range e.obligs {
+			switch o.kind {
+			case "bounds", "nil", "slice", "div", "make", "typeassert", "panic", "nilmap":
+				keep = append(keep, o)
+			case "cover":
+				// the reachability probes of individual returns are not used for thin contracts (a defensive return made
+				// unreachable by a callee contract is no vacuity here); the precondition probe stays
+				if strings.HasSuffix(o.name, "/cover:requires") {
+					keep = append(keep, o)
+				}
+			}
+		}
+		e.obligs = keep
+		e.noteAssumption("thin safety-only contract: callee preconditions and frames are not checked for " + e.fnName)
+	}
 	res.obligs = e.obligs
 	res.abstracted = e.abstracted
 	for a := range e.assumptions {
